@@ -71,6 +71,7 @@ def c05(ctx):
 @check("C09")
 def c09(ctx):
     verify_family(ctx, ["MCVerify_quick.cfg"])
+    curve_family(ctx)     # mul8 events: [8]P for decodable strings of unknown discrete log, audited projection
     finish(ctx, VERIFY_RULE + "; plus direct calls of isSmallOrderVartime", ASSUME_COMMON)
 
 
@@ -250,3 +251,62 @@ def c14(ctx):
     finish(ctx, "GenerateKey on readers of every kind (exact, long, chunked, short, failing, nil): bytes consumed, error propagation, coherence with NewKeyFromSeed / crypto/ed25519; "
            "Public()/Seed() freshness by mutation; Equal truth table over every single-byte difference (two masks) of private and public keys, length differences and foreign types; "
            "validated by TLC against Api.tla (GenKeyExpected, EqualExpected)", ASSUME_COMMON)
+
+
+# ---------------------------------------------------------------- curve family (decode/encode, conversions, X25519)
+
+def curve_class(ev):
+    op = ev.get("op")
+    if op == "decode":
+        y = int.from_bytes(bytes(ev["bytes"][:31] + [ev["bytes"][31] & 0x7f]), "little")
+        p = 2 ** 255 - 19
+        cls = "y>=p" if y >= p else ("y<24" if y < 24 else ("y>p-25" if y > p - 25 else "generic"))
+        return "decode|%s|ok=%s|branch=%s|neg=%s|sign=%d" % (cls, ev["ok"], ev["branch"], ev["negative"], ev["bytes"][31] >> 7)
+    if op == "pack":
+        return "pack|variant=%s" % ev["variant"]
+    if op == "x25519":
+        return "x25519|%s|slen=%s|plen=%s|err=%s|%s" % (ev["point"], ev["scalarLen"], ev["pointLen"], ev["err"], ev.get("what", ""))
+    if op == "edpub2x":
+        return "edpub2x|ok=%s" % ev["ok"]
+    return op
+
+
+def curve_family(ctx):
+    drv = build_driver(ctx)
+    trace = os.path.join(ctx.work, "curve.ndjson")
+    out = run_driver(ctx, drv, "curve", trace)
+    ctx.log("driver:", out.strip())
+    mism = validate_trace(ctx, "TraceCurve.tla", "TraceCurve.cfg", trace, classify=curve_class, timeout=6000)
+    report_mismatches(ctx, mism)
+
+
+CURVE_ASSUME = ASSUME_COMMON + ["square-root / non-residue / inverse witnesses are supplied by refmodel and CHECKED by TLC (sound whatever produced them); "
+                                "X25519 results are compared with refmodel's RFC 7748 ladder, itself audited bit by bit in TLA+ (audit-ladder events) on a seeded sample; "
+                                "the generic X25519 path is golang.org/x/crypto (outside the repository)"]
+
+
+@check("C10")
+def c10(ctx):
+    model_check(ctx, "MCDecode.tla", "MCDecode.cfg")
+    curve_family(ctx)
+    finish(ctx, "decode inputs: the 19 y in [p, 2^255) x sign, y < 24 and y > p-25 x sign, the 14 torsion encodings, random strings (both root branches and non-squares), honest points; "
+           "observed through UnpackVartime, UnpackNegativeVartime and EdPublicKeyToX25519; every decoded point re-encoded by Pack from four internal representations (Z=1, scaled, x+p/y+p, scaled+p); "
+           "TLC checks the witness, the flag, the coordinates (curve equation, parity rule, Z=1, T=XY) and the canonical encoding in exact arithmetic; "
+           "audit-iso events validate the harness projection [k]B+[t]T8 bit by bit in TLA+", CURVE_ASSUME)
+
+
+@check("C11")
+def c11(ctx):
+    model_check(ctx, "MCOptions.tla", "MCOptions.cfg")
+    curve_family(ctx)
+    finish(ctx, "X25519 on the base-point slice (fast path), a copy of 9 (generic), ScalarBaseMult and ScalarMult for scalars covering every nibble value at every position with neighbours 0/7/8/f, "
+           "all unclamped variants of the low 3 / high 2 bits, 0, all-ones, L-1, L, 4L, random; generic points (known-dlog curve points, arbitrary u incl. twist, u >= p, bit 255 set), the 7 low-order points, "
+           "argument lengths 0,1,31,33,64; TLC checks result = RFC 7748 value, fast = generic, error iff bad length or all-zero result; audit-ladder events replay the full ladder in TLA+", CURVE_ASSUME)
+
+
+@check("C12")
+def c12(ctx):
+    model_check(ctx, "MCDecode.tla", "MCDecode.cfg")
+    curve_family(ctx)
+    finish(ctx, "EdPublicKeyToX25519 on all C10 decode inputs (ok iff decodable by witness; out = canonical (1+y)/(1-y) by inverse witness, 0 for y=1); EdPrivateKeyToX25519 = clamp(SHA-512(seed)[:32]); "
+           "commutation X25519(convPriv, Basepoint) = convPub(pub) for seeded seeds; all validated by TLC in exact arithmetic", CURVE_ASSUME)
